@@ -339,6 +339,8 @@ func emitCoq(world *World, res []*FuncResult) string {
 			its = append(its, t.Name)
 		}
 	}
-	fmt.Fprintf(&w, "Definition iterator_types : list string := %s.\n", coqStrings(its))
+	fmt.Fprintf(&w, "Definition iterator_types : list string := %s.\n\n", coqStrings(its))
+	w.WriteString("(* entries of the translator's standard-library summary table that this source uses *)\n")
+	fmt.Fprintf(&w, "Definition stdlib_summaries_used : list string := %s.\n", coqStrings(sortedKeys(world.a.usedStd)))
 	return w.String()
 }
